@@ -58,7 +58,7 @@ func genBeta(depth bool) *rapid.Generator[int] {
 
 func genTreeCase(depth bool) func(t *rapid.T) TreeCase {
 	return func(t *rapid.T) TreeCase {
-		c := TreeCase{Beta: genBeta(depth).Draw(t, "beta")}
+		c := TreeCase{Beta: genBeta(depth).Draw(t, "beta"), Mag: rapid.SampledFrom([]int{0, 0, 1, 1, 2}).Draw(t, "mag")}
 		if depth {
 			switch rapid.IntRange(0, 3).Draw(t, "initKind") {
 			case 0:
@@ -112,6 +112,7 @@ func runC01(c TreeCase, o *vk.Obs) string {
 	o.ClassIf(c.Beta == 0, "beta=0")
 	o.ClassIf(c.Beta == 1000, "beta=1000")
 	o.ClassIf(len(c.Init) > 0, "bulk_init")
+	o.ClassIf(c.Mag%3 != 0, "comparator_returns_magnitudes")
 	return ""
 }
 
